@@ -225,13 +225,21 @@ pub fn exec_direct(store: &mut AnnotationStore, m: &Model, op: &Op) -> ExecResul
 
 fn exec_direct_inner(store: &mut AnnotationStore, m: &Model, op: &Op) -> ExecResult {
     match op {
-        Op::AddResource { id, text } => res(
+        Op::AddResource { id, text, replaced: None } => res(
             catch(|| {
                 store.add_resource(
                     TextResourceBuilder::new()
                         .with_id(id.clone())
                         .with_text(text.clone()),
                 )
+            }),
+            |h| Some(h.as_usize()),
+        ),
+        Op::AddResource { id, text, replaced: Some(first) } => res(
+            catch(|| {
+                let config = store.config().clone();
+                let resource = TextResource::new(id.clone(), config).with_string(first.clone()).with_string(text.clone());
+                store.insert(resource)
             }),
             |h| Some(h.as_usize()),
         ),
